@@ -8,6 +8,11 @@ def _c15_extra(req, tier, seed):
     return c15cli.run(req, tier, seed)
 
 
+def _regen():
+    from . import core
+    core.regen_tables(core.extract_tables())
+
+
 SPECS = {
     "C20": dict(
         groups=["graph"],
@@ -41,8 +46,9 @@ SPECS = {
                  "parse_print (parseTsTy (printSpec t) = some t) is tested per case, not proved"],
     ),
     "C18": dict(
-        groups=["mappings"],
-        only_oracles=["mapping_is_substitution", "mapped_name_absent", "unmapped_identical", "nopanic"],
+        groups=["mappings", "project"],
+        only_oracles=["mapping_is_substitution", "mapped_name_absent", "unmapped_identical", "nopanic", "c18_mapped_name_absent"],
+        excluded_classes=['unsupportedType', 'undefinedNamedType', 'undocumentedItemShape', 'duplicateTypeNames', 'duplicateCommandNames', 'K18a_mappedAndDefined', 'K01a_reservedOrIllegalFnName'],
         theorems="Typegen.Theorems.C18",
         trusted_base=[LEAN_TB, HARNESS_TB,
                       "oracle `mapping_is_substitution` compares the real mapped rendering with the *model's* unmapped rendering of the substituted type (modulo `.coerce`, since a mapped number is z.number()); `unmapped_identical` compares two real renderings"],
@@ -53,7 +59,7 @@ SPECS = {
         exhaustive={"quick": False, "thorough": True},
         exhaustive_scope={"thorough": "17 positions x 5 sites x 2 modes x 3 tables x 6 names"},
     ),
-    "C04": dict(
+    "C04": dict(pre_lake=_regen, 
         groups=["params", "project"],
         only_oracles=["tauri_key", "nopanic", "c04_key_set"],
         excluded_classes=['unsupportedType', 'undefinedNamedType', 'undocumentedItemShape', 'duplicateTypeNames', 'duplicateCommandNames', 'K18a_mappedAndDefined', 'K01a_reservedOrIllegalFnName'],
@@ -151,14 +157,14 @@ SPECS = {
         exhaustive={"quick": False, "thorough": True},
         exhaustive_scope={"thorough": "every .rs file of /repo and of the cargo registry (as is + 3 transformations)"},
         partial=["C15 is a statement about the runtime (syn, tera, the stack): proved are the index arithmetic of parse_rename for all token strings (refinement of the character-level model, no slice panics), the guarded fixed-offset slices, and isolation of unparsable files in the analysis model; everything else is corpus / fuzz evidence, not proof"]),
-    "C03": dict(groups=["project"], only_oracles=["c03_wrappers"], excluded_classes=['unsupportedType', 'undefinedNamedType', 'undocumentedItemShape', 'duplicateTypeNames', 'duplicateCommandNames', 'K18a_mappedAndDefined', 'K01a_reservedOrIllegalFnName'], theorems="Typegen.Theorems.C03",
+    "C03": dict(pre_lake=_regen, groups=["project"], only_oracles=["c03_wrappers"], excluded_classes=['unsupportedType', 'undefinedNamedType', 'undocumentedItemShape', 'duplicateTypeNames', 'duplicateCommandNames', 'K18a_mappedAndDefined', 'K01a_reservedOrIllegalFnName'], theorems="Typegen.Theorems.C03",
         trusted_base=[LEAN_TB, HARNESS_TB,
                       "project-level tie: the harness renders a project IR to Rust source files, runs the real CommandAnalyzer + generators on them and hands the IR (annotated with the token text proc_macro2 prints for every attribute and the generic tree of every type) to the Lean model; compared: the whole analysis (commands, parameters, channels, events, discovered types, dependency sets) and the text of all four generated files modulo whitespace and the header comment",
                       "modelled, not verified: syn (the IR is what syn hands to the analysers), walkdir, tera (templates transcribed by hand, validated by the text comparison), proc_macro2 Display"],
         assumptions=["spec of 'command': top-level fn of a selected file with an attribute path tauri::command or command"],
         rule="random projects of 1..5 files in nested directories (120 quick / 1500 thorough, each in both modes, with 5 configuration variants): commands with value / injected (12 spellings) / channel (3 spellings) parameters, serde structs / enums with attributes, validators, events at every documented placement and receiver form, helper functions, impl blocks and inline modules with command-looking functions, decoys under target/ and .git/, unparsable and empty files; a *safe* stream (2/3) stays inside the property's input domain, an *adversarial* stream (1/3) aims at the known exclusion classes; non-trivial = project with at least one command; distinct = hash of (IR, configuration)", exhaustive={"quick": False, "thorough": False},
         partial=["C03 holds unconditionally on the model's own file filter; equality of that filter with the statement's (no target/.git *component below the project path*) fails for K03a roots"]),
-    "C07": dict(groups=["project"], only_oracles=["c07_declared_exactly_reachable"], excluded_classes=['unsupportedType', 'undefinedNamedType', 'undocumentedItemShape', 'duplicateTypeNames', 'duplicateCommandNames', 'K18a_mappedAndDefined', 'K01a_reservedOrIllegalFnName'], theorems="Typegen.Theorems.C07",
+    "C07": dict(pre_lake=_regen, groups=["project"], only_oracles=["c07_declared_exactly_reachable"], excluded_classes=['unsupportedType', 'undefinedNamedType', 'undocumentedItemShape', 'duplicateTypeNames', 'duplicateCommandNames', 'K18a_mappedAndDefined', 'K01a_reservedOrIllegalFnName'], theorems="Typegen.Theorems.C07",
         trusted_base=[LEAN_TB, HARNESS_TB,
                       "project-level tie: the harness renders a project IR to Rust source files, runs the real CommandAnalyzer + generators on them and hands the IR (annotated with the token text proc_macro2 prints for every attribute and the generic tree of every type) to the Lean model; compared: the whole analysis (commands, parameters, channels, events, discovered types, dependency sets) and the text of all four generated files modulo whitespace and the header comment",
                       "modelled, not verified: syn (the IR is what syn hands to the analysers), walkdir, tera (templates transcribed by hand, validated by the text comparison), proc_macro2 Display"],
@@ -171,7 +177,7 @@ SPECS = {
                       "modelled, not verified: syn (the IR is what syn hands to the analysers), walkdir, tera (templates transcribed by hand, validated by the text comparison), proc_macro2 Display"],
         assumptions=["generated type graphs are acyclic (types only refer to earlier types); 'every internal iteration order' is discharged by C13 (sorted iteration), so one process per case suffices"],
         rule="random projects of 1..5 files in nested directories (120 quick / 1500 thorough, each in both modes, with 5 configuration variants): commands with value / injected (12 spellings) / channel (3 spellings) parameters, serde structs / enums with attributes, validators, events at every documented placement and receiver form, helper functions, impl blocks and inline modules with command-looking functions, decoys under target/ and .git/, unparsable and empty files; a *safe* stream (2/3) stays inside the property's input domain, an *adversarial* stream (1/3) aims at the known exclusion classes; non-trivial = project with at least one command; distinct = hash of (IR, configuration)", exhaustive={"quick": False, "thorough": False}),
-    "C12": dict(groups=["project"], only_oracles=["c12_listeners"], excluded_classes=['unsupportedType', 'undefinedNamedType', 'undocumentedItemShape', 'duplicateTypeNames', 'duplicateCommandNames', 'K18a_mappedAndDefined', 'K01a_reservedOrIllegalFnName'], theorems="Typegen.Theorems.C12",
+    "C12": dict(pre_lake=_regen, groups=["project"], only_oracles=["c12_listeners", "c12_payload_types"], excluded_classes=['unsupportedType', 'undefinedNamedType', 'undocumentedItemShape', 'duplicateTypeNames', 'duplicateCommandNames', 'K18a_mappedAndDefined', 'K01a_reservedOrIllegalFnName'], theorems="Typegen.Theorems.C12",
         trusted_base=[LEAN_TB, HARNESS_TB,
                       "project-level tie: the harness renders a project IR to Rust source files, runs the real CommandAnalyzer + generators on them and hands the IR (annotated with the token text proc_macro2 prints for every attribute and the generic tree of every type) to the Lean model; compared: the whole analysis (commands, parameters, channels, events, discovered types, dependency sets) and the text of all four generated files modulo whitespace and the header comment",
                       "modelled, not verified: syn (the IR is what syn hands to the analysers), walkdir, tera (templates transcribed by hand, validated by the text comparison), proc_macro2 Display"],
